@@ -5,7 +5,7 @@
 From Coq Require Import ZArith List Bool Reals.
 From Flocq Require Import Core.Core IEEE754.BinarySingleNaN.
 From GV Require Import Base.CSem Base.F32 Gen.MetricPyx Spec.Jaccard Spec.JaccardF Model.MetricPy
-  Proofs.C02 Proofs.MetricTriangle Proofs.C15.
+  Proofs.C02 Proofs.MetricTriangle Proofs.MetricStrict Proofs.C15.
 Import ListNotations.
 Open Scope Z_scope.
 
@@ -67,10 +67,20 @@ Theorem C15_triangle_exact : forall A B C, sorted A -> sorted B -> sorted C ->
 Proof. exact triangle_ratio. Qed.
 Print Assumptions C15_triangle_exact.
 
-(** PARTIAL: the property says the reported distance strictly decreases; proved here: the exact ratio
-    strictly decreases and the reported binary32 value does not increase.  Strictness of the binary32
-    value needs |A u B| + 1 < 2^23 (known finding C15-f1 beyond) and is explored, not proved. *)
-Theorem C15_add_common_partial : forall fuel x A B d d',
+(** adding a k-mer absent from both (different) sets strictly decreases the reported binary32
+    distance when |A u B| + 1 <= 2^23 (every k <= 11, the default included); near 2^24 strictness
+    genuinely fails in binary32 (known finding C15-f1) *)
+Theorem C15_add_common : forall fuel x A B d d',
+  sorted A -> sorted B -> ~ In x A -> ~ In x B -> A <> B ->
+  (length A + length B + 2 <= fuel)%nat -> union_count A B + 1 <= 8388608 ->
+  jaccarddist fuel A B = Ok d ->
+  jaccarddist fuel (insert_sorted x A) (insert_sorted x B) = Ok d' ->
+  (B2R d' < B2R d)%R.
+Proof. exact C15_add_common_l. Qed.
+Print Assumptions C15_add_common.
+
+(** between 2^23 and 2^24: the exact ratio strictly decreases and the binary32 value does not increase *)
+Theorem C15_add_common_weak : forall fuel x A B d d',
   sorted A -> sorted B -> ~ In x A -> ~ In x B -> A <> B ->
   (length A + length B + 2 <= fuel)%nat -> union_count A B < 16777216 ->
   jaccarddist fuel A B = Ok d ->
@@ -83,4 +93,4 @@ Theorem C15_add_common_partial : forall fuel x A B d d',
    < IZR (symdiff_count A B) / IZR (union_count A B))%R /\
   (B2R d' <= B2R d)%R.
 Proof. exact C15_add_common_partial_l. Qed.
-Print Assumptions C15_add_common_partial.
+Print Assumptions C15_add_common_weak.
